@@ -39,7 +39,7 @@ def c16_case(draw, tier):
     t0 = g.t(var)
     if t0.group and len(t0.visible) >= 2 and draw(st.integers(0, 2)) == 0:
         # a deselected grouping column keeps grouping the table, also across the re-rooting
-        gn = [n for n, c in t0.visible if c in t0.group]
+        gn = [n for n, c in t0.visible if c in t0.group and c not in t0.agg_cols]  # (K03: aggregate columns stay selected)
         if gn:
             v2 = g.emit({"out": g.new_var(), "verb": "drop", "in": var, "cols": [{"c": draw(st.sampled_from(gn))}]})
             if v2 is not None:
